@@ -117,7 +117,7 @@ def analyse(run, spec, c, bins, script, source):
     mproj = T.project(mout, spec.proj)
     found_v = []; found_d = []; validated = 0
     for variant, b in bins.items():
-        rc, out, err = corr.run_impl(b, script, wrapper=spec.wrapper, timeout=60)
+        rc, out, err = corr.run_impl(b, script, wrapper=spec.wrapper, timeout=30)
         validated += 1
         rej = None
         for mid in spec.monitor_ids:
@@ -183,6 +183,8 @@ def run_machine(run, spec):
     tier = run.tier; rng = run.rng
     # configurations depend on (property, tier) only, so that the set-up command can pre-build them; scripts depend on the seed
     cfgs = spec.cfgs(tier, random.Random(int(hashlib.sha256((spec.pid + tier).encode()).hexdigest()[:8], 16)))
+    # every other small configuration is also built against the template overloads of the API (changeTo<T>(), isActive<T>(), plan.change<A, B>(), ...)
+    cfgs = cfgs + [dict(c, tapi=1) for k, c in enumerate(cfgs) if c["n"] <= 5 and k % 2 == 0]
     corpus = corpus_scripts(spec.pid)
     corpus_cfgs = []
     for path, s in corpus:
